@@ -48,6 +48,7 @@ type Profile struct {
 	PNonASCII   float64
 	PCompact    float64
 	Wide        bool // dozens of entries in in-order lists and allotments
+	LongExpr    bool // arithmetic chains of 60-330 operators (left-deep: as deep as they are long)
 }
 
 func DrawProfile(r *rand.Rand) Profile {
@@ -70,6 +71,11 @@ func DrawProfile(r *rand.Rand) Profile {
 		// dozens of accounts: one balance query then carries far more pairs than usual
 		p.NAccounts = 20 + r.IntN(30)
 		p.MaxStmts = 10 + r.IntN(30)
+	case 5:
+		// long arithmetic: anything that counts operators or nesting, per run or per process
+		p.LongExpr = true
+		p.PInfix = 1
+		p.PVarUse = 0.1
 	}
 	return p
 }
@@ -237,6 +243,21 @@ func (g *G) numberExpr() (*Expr, *big.Int) {
 			v := ok[g.R.IntN(len(ok))]
 			return Var(v.Name), new(big.Int).Set(v.Amt)
 		}
+	}
+	if g.P.LongExpr && g.chance(0.5) {
+		total := g.smallNum()
+		e := Num(fmt.Sprint(total))
+		for n := 60 + g.R.IntN(270); n > 0; n-- {
+			b := int64(g.R.IntN(4))
+			if total >= b && g.chance(0.45) {
+				e = &Expr{K: "sub", L: e, R: Num(fmt.Sprint(b))}
+				total -= b
+			} else {
+				e = &Expr{K: "add", L: e, R: Num(fmt.Sprint(b))}
+				total += b
+			}
+		}
+		return e, big.NewInt(total)
 	}
 	if g.chance(g.P.PInfix) {
 		a, b := g.smallNum(), g.smallNum()
